@@ -366,6 +366,48 @@ def rewrite_R1b(toks, log):
     return out
 
 
+def rewrite_R1c(toks, table, log):
+    """R1 inside bodies, `let` type annotations: `let [mut] NAME : TYPE = ...` — TYPE is mapped through the same table as the
+    signature types when it has an entry there (otherwise it is left alone)"""
+    out = []
+    k = 0
+    while k < len(toks):
+        t = toks[k]
+        out.append(t)
+        if t.kind == "ident" and t.text == "let":
+            s = [k + 1 + x for x in _sigidx(toks[k + 1:k + 8])]
+            j = 0
+            if s and toks[s[0]].text == "mut":
+                j = 1
+            if len(s) > j + 1 and toks[s[j]].kind == "ident" and toks[s[j + 1]].text == ":":
+                # type tokens up to the `=` / `;` at angle depth 0
+                q = s[j + 1] + 1
+                depth = 0
+                while q < len(toks):
+                    tx = toks[q].text if toks[q].kind == "punct" else ""
+                    if tx == "<":
+                        depth += 1
+                    elif tx == ">":
+                        depth -= 1
+                    elif tx == ">>":
+                        depth -= 2
+                    elif tx in ("=", ";") and depth <= 0:
+                        break
+                    q += 1
+                ty = norm(text_of(toks[s[j + 1] + 1:q]))
+                if ty in table:
+                    out.extend(toks[k + 1:s[j + 1] + 1])
+                    out.append(Tok("ws", " ", t.line))
+                    from rustlex import lex as _lex
+                    out.extend(Tok(x.kind, x.text, t.line) for x in _lex(table[ty]))
+                    out.append(Tok("ws", " ", t.line))
+                    log.append("R1 let type %s -> %s line %d" % (ty, table[ty], t.line))
+                    k = q
+                    continue
+        k += 1
+    return out
+
+
 def rewrite_R3(toks, log):
     """E.unwrap_or_else(|| M!(..))  ->  E.unwrap()   for M in {unimplemented, unreachable, panic}"""
     out = []
@@ -1046,6 +1088,7 @@ def emit_unit(em, repo, u, type_table, log, assumed=False):
     body = list(toks[block[0]:block[1] + 1]) if block else list(toks[f["b_open"] + 1:f["b_close"]])
     body = rewrite_R10(body, log, u, name)
     body = rewrite_R1b(body, log)
+    body = rewrite_R1c(body, table, log)
     body = rewrite_R3(body, log)
     body = rewrite_R8(body, log)
     body = rewrite_R9(body, log)
@@ -1151,6 +1194,7 @@ def splice(body, u, name):
             inserts.setdefault(j, []).extend(marks)
         elif lab[0] in ("proof", "ghost") and len(lab) > 1 and lab[1].startswith("before"):
             pick_last = lab[1].startswith("before-last")
+            pick_first = lab[1].startswith("before-first")
             anchor = s["label"].split(":", 1)[1].strip()
             want = [t.text for t in lex(anchor) if t.kind not in ("ws", "comment")]
             sigk = [k for k, t in enumerate(body) if t.kind not in ("ws", "comment")]
@@ -1160,6 +1204,8 @@ def splice(body, u, name):
                     hits.append(sigk[a])
             if pick_last and hits:
                 hits = hits[-1:]
+            if pick_first and hits:
+                hits = hits[:1]
             if len(hits) != 1:
                 raise Undecided("anchor lost: proof anchor %r matches %d places in %s" % (anchor, len(hits), name))
             marks = [Mark("proof {\n", "meta", None, None, None)] if lab[0] == "proof" else []
